@@ -14,7 +14,7 @@ from harness.common import Ck, coq_list, coq_str, coq_bytes, parse_coq_N_list
 from translate import c19_walk
 
 MANIFEST = dict(
-    technique='Rocq proof (backends as translated operation lists refining one folded-name map for every query string; walk_folder exactness for the sound folder forms; RawFileSystem lookup/walk from its translated operations; chain first-match / priority / prefix / de-duplication laws; every public lookup form of a chain - [], in, _get_file, _file_exists, open_bin, open_str, the bytes read, walk_folder, iter - equal to one specification function for members of any backend kind; the VPK content expression and the container reader FileInfo.read() as translated expressions that return the stored bytes in every placement) + fail-closed ast translator working on a canonical form of filesys.py / vpk.py (semantic normalisation, 14 rewrite rules) + instance obligations and two instance theorems at the generated configuration + vm_compute correspondence over the four real backends and chains + differential oracle',
+    technique='Rocq proof (backends as translated operation lists refining one folded-name map for every query string; walk_folder exactness for the sound folder forms; RawFileSystem lookup/walk from its translated operations; chain first-match / priority / prefix / de-duplication laws; every public lookup form of a chain - [], in, _get_file, _file_exists, open_bin, open_str, the bytes read, walk_folder, iter - equal to one specification function for members of any backend kind; the VPK content expression and the container reader FileInfo.read() as translated expressions that return the stored bytes in every placement) + fail-closed ast translator working on a canonical form of filesys.py / vpk.py (semantic normalisation, 15 rewrite rules, the rewritten module is executed and compared with the real one on every run) + instance obligations and two instance theorems at the generated configuration + vm_compute correspondence over the four real backends and chains + differential oracle',
     text='Theorems in Props/C19.v, generic over a backend record of normalisation operations regenerated from filesys.py on every run. '
          'Lookup: backends whose query functions convert the slashes, normalise the path and fold the case (today\'s source, obligation *_keys_normalise_every_spelling) agree with each other and with the specification map (folded name -> last stored file) on _get_file, _file_exists and open_bin for EVERY query string; empty and "." segments, either slash and letter case are proved insignificant (c19_normpath_noise, c19_lookup_noise_insensitive); any other recognised form agrees on queries normpath leaves alone (c19_lookup_agree); the pinned forms are refuted on "./x" and ".\\x". '
          'Bytes: what VPKFileSystem.open_bin/open_str read is a translated expression over the FileInfo, and FileInfo.read() itself is translated from vpk.py with the slice displacements found in the source; expressions recognised as whole return the stored bytes for every split between preload and rest, for the directory tail, a numbered archive and a single-file VPK, wherever the rest lies (c19_vpk_content_whole_all_placements, c19_vpk_open_same_bytes, c19_vpk_reader_whole_all_placements, c19_vpk_open_through_reader); the preload shortcut and the one-byte-short slice are refuted. '
@@ -23,7 +23,7 @@ MANIFEST = dict(
          'FileSystemChain: c19_chain_every_form_spec - for every query string and every list of members of whatever backend kind (no premise on the prefixes) chain[q] / _get_file(q), the resolution of open_bin / open_str(q), q in chain / _file_exists(q) in every recognised sound shape and the bytes read from the handle are the specification function chain_spec (first member, in priority order, whose files contain subfolder/name up to case, slash kind and redundant segments); hence the backend kind of a member is unobservable through a chain (c19_chain_backend_kind_unobservable); a _file_exists loop that re-assigns the joined name is refuted (c19_chain_exists_carried_name_refuted). Priority insertion first / plain insertion last (both add_sys branches translated); the de-duplicated walk lists each folded name once keeping the first member\'s entry, the dict-overwrite shape is refuted. '
          'Composition (c19_chain_walk_lookup_closed, c19_chain_walk_complete, c19_chain_walk_every_entry_spec, c19_chain_walk_lists_spec, c19_chain_iter_lists_spec): for members with empty or clean prefixes and an empty or clean folder, every (path, File) the de-duplicated walk lists is the specification\'s answer for path (it looks up in every form and reads the listed bytes), and every clean name the specification serves inside the folder is listed with that File; iter(chain) lists every clean name served. All of these are re-instantiated at the generated configuration on every run. '
          'The generated model is compared with the real Virtual/Zip/VPK/Raw backends (lookups in all spellings incl. open_str, VPKs written in 7 data placements, walks of normalised and un-normalised folders) and with chains ([], in, open_bin, open_str, walk_folder, walk_folder_repeat); a reference oracle written from the property checks every public form on the four real backends and on chains of up to 4 members in all orderings, file contents for 5 VPK placement classes with sizes around the preload limits (1024, 65535), plus non-ASCII case folding for the in-memory and zip backends.',
-    note='Trusted: Coq kernel + vm_compute, translate/c19_walk.py (incl. its canonicalisation rewrites, each an equivalence of Python programs), zipfile, the VPK writer of vpk.py (where the bytes are put; the reader is translated; VPK.fileinfos only through a shape check), which numbered archive file is opened (C13), the OS directory semantics (RawFileSystem: exact names via os.path.isfile/open/os.walk after abspath; RootEscapeError belongs to C18). Model restrictions: ASCII case folding only in the model (non-ASCII casefold is searched on the in-memory and zip backends; VPK names are ASCII); stored names are clean relative "/" paths; ".." segments are modelled (full posixpath.normpath) and compared by correspondence but the general noise theorem covers only empty and "." segments; the walk/composition theorems assume empty or clean prefixes and folders (other spellings: correspondence and oracle) - the chain lookup theorem has no such premise; absolute paths are outside the statement; reading a slice of the wrong home is modelled as returning nothing (such readers are never recognised as whole). Which of two stored names differing only in case wins depends on container order (c19_lookup_order_matters_for_case_duplicates); VPK regroups files, see known finding case-duplicate-winner-vpk-differs. Observations (not violations): RawFileSystem.open_bin of a directory raises IsADirectoryError where the others raise FileNotFoundError; File.path of a lookup differs per backend.',
+    note='Trusted: Coq kernel + vm_compute, translate/c19_walk.py (its canonicalisation rewrites are meant to be equivalences of Python programs; on every run the rewritten filesys.py is compiled, executed and compared with the real classes on every lookup form, walks and chains - obligations translate:canonical-form-runs / -is-equivalent), zipfile, the VPK writer of vpk.py (where the bytes are put; the reader is translated; VPK.fileinfos only through a shape check), which numbered archive file is opened (C13), the OS directory semantics (RawFileSystem: exact names via os.path.isfile/open/os.walk after abspath; RootEscapeError belongs to C18). Model restrictions: ASCII case folding only in the model (non-ASCII casefold is searched on the in-memory and zip backends; VPK names are ASCII); stored names are clean relative "/" paths; ".." segments are modelled (full posixpath.normpath) and compared by correspondence but the general noise theorem covers only empty and "." segments; the walk/composition theorems assume empty or clean prefixes and folders (other spellings: correspondence and oracle) - the chain lookup theorem has no such premise; absolute paths are outside the statement; reading a slice of the wrong home is modelled as returning nothing (such readers are never recognised as whole). Which of two stored names differing only in case wins depends on container order (c19_lookup_order_matters_for_case_duplicates); VPK regroups files, see known finding case-duplicate-winner-vpk-differs. Observations (not violations): RawFileSystem.open_bin of a directory raises IsADirectoryError where the others raise FileNotFoundError; File.path of a lookup differs per backend.',
 )
 
 IMPORTS = ['Coq.Lists.List', 'Coq.NArith.NArith', 'Coq.Bool.Bool', 'SV.SM.FsChain', 'SV.SM.FsChainForms', 'SV.SM.FsChainRead', 'SV.Gen.FsWalk_gen']
@@ -404,7 +404,7 @@ def _files_lit(files) -> str:
 
 
 def corr_backends(ck: Ck, root: str) -> None:
-    n = ck.budget(32, 400)
+    n = ck.budget(28, 400)
     cases = []
     for i in range(n):
         rng = ck.rng
@@ -515,7 +515,7 @@ def corr_backends(ck: Ck, root: str) -> None:
 
 def corr_chain(ck: Ck, root: str) -> None:
     from srctools.filesys import FileSystemChain
-    n = ck.budget(50, 400)
+    n = ck.budget(40, 400)
     cases = []
     for i in range(n):
         rng = ck.rng
@@ -934,10 +934,54 @@ def canonical_validation(ck: Ck, root: str) -> None:
                 b.close()
     finally:
         sys.modules.pop(name, None)
+    # the same for vpk.py, whose FileInfo.read() is translated from its canonical form: containers written by the real
+    # module in every placement class are read back by the canonical module
+    vname = 'srctools._c19_canonical_vpk'
+    try:
+        vtree = c19_walk.canonical_module(_ast.parse(src_text('vpk.py')))
+        vtr = c19_walk.Tr(vtree, 'vpk.py')
+        for i, node in enumerate(vtree.body):
+            if isinstance(node, _ast.FunctionDef):
+                vtr.cls = None
+                vtree.body[i] = c19_walk.normalise(vtr, None, node)
+            elif isinstance(node, _ast.ClassDef):
+                vtr.cls = node
+                for j, m in enumerate(node.body):
+                    if isinstance(m, _ast.FunctionDef):
+                        node.body[j] = c19_walk.normalise(vtr, node, m)
+        _ast.fix_missing_locations(vtree)
+        vmod = types.ModuleType(vname)
+        vmod.__package__ = 'srctools'
+        sys.modules[vname] = vmod
+        exec(compile(vtree, '<canonical form of vpk.py>', 'exec'), vmod.__dict__)
+        for i, sized in enumerate(CORPUS_SIZED + [gen_sized_files(rng) for _ in range(ck.budget(2, 10))]):
+            files = [(n, content_bytes(n, sz)) for n, sz in sized]
+            if not files:
+                continue
+            for placement in VPK_PLACEMENTS:
+                params = placement_params(rng, placement, len(files))
+                d = tempfile.mkdtemp(dir=root)
+                try:
+                    fs = build_vpk_placement(d, files, params)
+                    stored = dict(files)
+                    real_read = {f.filename: f.read() for f in fs.vpk}
+                    canon_read = {f.filename: f.read() for f in vmod.VPK(os.path.join(d, params['file']))}
+                    nobs += len(real_read)
+                    if real_read != canon_read:
+                        bad = sorted(k for k in set(real_read) | set(canon_read) if real_read.get(k) != canon_read.get(k))
+                        diffs.append(f'vpk.py {placement} {params}: FileInfo.read() differs between vpk.py and its canonical form for {bad[:3]}')
+                    ck.count('canonical_vpk_reads', len(real_read))
+                    del stored
+                finally:
+                    shutil.rmtree(d, ignore_errors=True)
+    except Exception as e:      # noqa: BLE001
+        diffs.append(f'the canonical form of vpk.py could not be built / executed: {type(e).__name__}: {e}')
+    finally:
+        sys.modules.pop(vname, None)
     ck.count('canonical_form_observations', nobs)
     ck.obligation('translate:canonical-form-is-equivalent', not diffs,
-                  f'{nobs} observations (every lookup form and walk of the four backends and of chains) agree between filesys.py and its '
-                  f'canonical form as executed' if not diffs else f'{len(diffs)} differences, first: {diffs[0][:600]}')
+                  f'{nobs} observations (every lookup form and walk of the four backends and of chains; FileInfo.read() of containers in '
+                  f'every placement class) agree between filesys.py / vpk.py and their canonical forms as executed' if not diffs else f'{len(diffs)} differences, first: {diffs[0][:600]}')
     if diffs:
         ck.tie_broken.append('canonical form of filesys.py behaves differently from filesys.py')
 
@@ -1354,7 +1398,7 @@ def search(ck: Ck, root: str) -> None:
             if key not in found or size < len(repr(found[key][1])):
                 found[key] = (what, rep)
 
-    n = ck.budget(70, 300)
+    n = ck.budget(60, 300)
     for i in range(n):
         files = CORPUS_SETS[i] if i < len(CORPUS_SETS) else gen_files(ck.rng)
         if not files:
@@ -1405,7 +1449,7 @@ def search(ck: Ck, root: str) -> None:
     ck.sample({'file_set': [nm for nm, _ in CORPUS_SETS[0]], 'folder_arguments': folder_candidates(random.Random(1), CORPUS_SETS[0])[:12],
                'query_spellings_of_first': spellings(random.Random(1), CORPUS_SETS[0][0][0])})
     # chains: random members; for small chains every ordering
-    m = ck.budget(70, 350)
+    m = ck.budget(60, 350)
     for i in range(m):
         g = CORPUS_CHAINS[i] if i < len(CORPUS_CHAINS) else gen_chain(ck.rng)
         if g is None:
@@ -1450,7 +1494,8 @@ def run(ck: Ck) -> None:
     ck.trusted.append('vpk.py VPK.fileinfos is read only when walk_folder calls it (shape check of its directory pre-filter)')
     ck.trusted.append('translate/c19_walk.py matches on a canonical form: its rewrite rules (inlining of single-return helpers, single-assignment '
                       'locals and module constants, loop/comprehension, if-continue, try/else, for/else, keyword arguments, SSA renaming) are '
-                      'equivalences of Python programs and are trusted as such')
+                      'equivalences of Python programs; the rewritten module is executed and compared with the real one on every run '
+                      '(canonical_validation), the rules themselves are not proved')
     ck.trusted.append('vpk.py FileInfo.read() is translated (slice displacements, homes, tests); FileInfo.write (where the bytes are put) and the '
                       'name of the numbered archive that is opened are trusted here (property C13)')
     ck.assumptions.append('case folding is modelled for ASCII only (non-ASCII casefold: oracle on the in-memory and zip backends); stored names are clean relative paths using "/"')
